@@ -445,3 +445,73 @@ func isURLPath(info *types.Info, e ast.Expr) bool {
 	tv, ok := info.Types[b]
 	return ok && typeIs(tv.Type, "net/url", "URL")
 }
+
+// conjuncts flattens a && b && c into its operands.
+func conjuncts(e ast.Expr) []ast.Expr {
+	e = unparen(e)
+	if be, ok := e.(*ast.BinaryExpr); ok && be.Op == token.LAND {
+		return append(conjuncts(be.X), conjuncts(be.Y)...)
+	}
+	return []ast.Expr{e}
+}
+
+// localFuncLit returns the function literal a local variable is bound to when it is assigned exactly once in body.
+func localFuncLit(body *ast.BlockStmt, info *types.Info, v *types.Var) *ast.FuncLit {
+	var lit *ast.FuncLit
+	n := 0
+	ast.Inspect(body, func(nd ast.Node) bool {
+		switch s := nd.(type) {
+		case *ast.AssignStmt:
+			for i, l := range s.Lhs {
+				if objOf(info, l) == types.Object(v) {
+					n++
+					if len(s.Rhs) == len(s.Lhs) {
+						lit, _ = unparen(s.Rhs[i]).(*ast.FuncLit)
+					}
+				}
+			}
+		case *ast.ValueSpec:
+			for i, nm := range s.Names {
+				if info.Defs[nm] == types.Object(v) && len(s.Values) == len(s.Names) {
+					n++
+					lit, _ = unparen(s.Values[i]).(*ast.FuncLit)
+				}
+			}
+		}
+		return true
+	})
+	if n != 1 {
+		return nil
+	}
+	return lit
+}
+
+// ParamObjs lists the receiver and parameters of a declared function.
+func (f *FuncInfo) ParamObjs(info *types.Info) []types.Object {
+	var out []types.Object
+	if f.Obj == nil {
+		return out
+	}
+	sig := f.Obj.Type().(*types.Signature)
+	if r := sig.Recv(); r != nil {
+		out = append(out, r)
+	}
+	for i := 0; i < sig.Params().Len(); i++ {
+		out = append(out, sig.Params().At(i))
+	}
+	return out
+}
+
+// namedTypeName is the name of the (pointer to a) named type, or "".
+func namedTypeName(t types.Type) string {
+	if t == nil {
+		return ""
+	}
+	if p, ok := t.(*types.Pointer); ok {
+		t = p.Elem()
+	}
+	if n, ok := t.(*types.Named); ok {
+		return n.Obj().Name()
+	}
+	return ""
+}
